@@ -334,7 +334,9 @@ func (s *Staking) distributeRewards(ctx *context) (map[common.Address]struct{}, 
 
 		// check if need to settle
 		if val.RewardsLastSettled < currRound && val.RewardsLastSettled+forceSettleGap <= currRound {
-			settleValidatorRewards(ctx, val, currRound)
+			// settle the object that was just stored (it carries this period's rewards);
+			// settling the stale one writes back a record without them
+			settleValidatorRewards(ctx, newVal, currRound)
 			settled[val.MainAddress()] = struct{}{}
 		}
 	}
